@@ -462,6 +462,11 @@ impl FromStr for Datetime {
                 let hours = h1 * 10 + h2;
                 let minutes = m1 * 10 + m2;
 
+                // time-numoffset = ( "+" / "-" ) time-hour ":" time-minute
+                if hours > 23 || minutes > 59 {
+                    return Err(DatetimeParseError {});
+                }
+
                 let total_minutes = sign * (hours * 60 + minutes);
 
                 if !((-24 * 60)..=(24 * 60)).contains(&total_minutes) {
